@@ -89,6 +89,8 @@ class Interp:
                 return env[key]
             if n.get('name') in env:
                 return env[n['name']]
+            if n.get('name') == 'npos' and 'basic_string' in (n.get('qn') or n.get('t', '') + 'basic_string'):
+                return 2 ** 64 - 1        # size_type(-1); the constant-value field carries it as a signed number
             if 'cv' in n:
                 return n['cv']
             if n.get('name') == 'nullopt':
@@ -344,7 +346,7 @@ class Interp:
         S = fn.stmts
         k = n['k']
         last = cs.split('::')[-1]
-        if k == 'CXXMemberCallExpr' and 'obj' in n and cs.startswith(('std::vector::', 'std::__shared_ptr::', 'std::shared_ptr::', 'std::unique_ptr::', 'std::basic_string::', 'std::__cxx11::basic_string::')):
+        if k == 'CXXMemberCallExpr' and 'obj' in n and cs.startswith(('std::vector::', 'std::__shared_ptr::', 'std::shared_ptr::', 'std::unique_ptr::', 'std::basic_string::', 'std::__cxx11::basic_string::', 'std::basic_string_view::')):
             if cs.startswith(('std::__shared_ptr::', 'std::shared_ptr::', 'std::unique_ptr::')):
                 o = self.eval(fn, S[n['obj']], env)
                 if last == 'get':
@@ -363,9 +365,32 @@ class Interp:
                     i = self.eval(fn, S[args[0]], env)
                     if isinstance(i, int) and 0 <= i < len(o):
                         return o[i]
-                    if last == 'operator[]' and i == len(o):
+                    if last == 'operator[]' and i == len(o) and 'string_view' not in cs:
                         return 0
                     raise OutOfFragment('string index %r out of range (length %d) at %s' % (i, len(o), fn.loc(n)))
+                if last == 'substr':
+                    a = [self.eval(fn, S[x], env) for x in args]
+                    pos = a[0] if a else 0
+                    cnt = a[1] if len(a) > 1 else len(o)
+                    if not (0 <= pos <= len(o)):
+                        raise OutOfFragment('substr position %r beyond the length %d (std::out_of_range) at %s' % (pos, len(o), fn.loc(n)))
+                    return bytes(o[pos:pos + max(cnt, 0)]) if cnt >= 0 else bytes(o[pos:])
+                if last == 'data' and not args:
+                    return ('sptr', bytes(o), 0)
+                if last in ('find_first_not_of', 'find_last_not_of', 'find_first_of', 'find_last_of', 'find', 'rfind') and args:
+                    a = [self.eval(fn, S[x], env) for x in args]
+                    pat = a[0] if isinstance(a[0], (bytes, bytearray)) else bytes([a[0] & 255]) if isinstance(a[0], int) else None
+                    if pat is None:
+                        raise OutOfFragment('string search argument at %s' % fn.loc(n))
+                    NPOS = 2 ** 64 - 1
+                    if last in ('find', 'rfind'):
+                        i = bytes(o).find(pat, a[1] if len(a) > 1 and last == 'find' else 0) if last == 'find' else bytes(o).rfind(pat)
+                        return i if i >= 0 else NPOS
+                    idx = range(len(o)) if 'first' in last else range(len(o) - 1, -1, -1)
+                    for i in idx:
+                        if (o[i] in pat) != ('not' in last):
+                            return i
+                    return NPOS
                 return NOT_HANDLED
             if not isinstance(o, list):
                 return NOT_HANDLED
@@ -446,6 +471,34 @@ class Interp:
                 same = a[1] is b[1] and a[2] == b[2]
                 return same == cs.endswith('==')
             raise OutOfFragment('iterator comparison form at %s' % fn.loc(n))
+        if k == 'CallExpr' and cs in ('std::minmax_element', 'std::min_element', 'std::max_element') and len(n.get('args', [])) in (2, 3):
+            vals = [self.eval(fn, S[a], env) for a in n['args']]
+            b, e = vals[0], vals[1]
+            if isinstance(b, tuple) and isinstance(e, tuple) and b[0] == 'it' and e[0] == 'it' and b[1] is e[1]:
+                less = (lambda x, y: self.call_lambda(vals[2], [x, y])) if len(vals) == 3 else (lambda x, y: x < y)
+                lo = hi = b[2] if b[2] < e[2] else e[2]
+                for i in range(b[2] + 1, e[2]):
+                    if less(b[1][i], b[1][lo]):
+                        lo = i                       # first smallest
+                    if not less(b[1][i], b[1][hi]):
+                        hi = i                       # last largest (minmax_element); max_element wants the first largest
+                if cs == 'std::max_element':
+                    hi = b[2] if b[2] < e[2] else e[2]
+                    for i in range(b[2] + 1, e[2]):
+                        if less(b[1][hi], b[1][i]):
+                            hi = i
+                return {'std::minmax_element': (('it', b[1], lo), ('it', b[1], hi)), 'std::min_element': ('it', b[1], lo), 'std::max_element': ('it', b[1], hi)}[cs]
+            raise OutOfFragment('%s form at %s' % (cs, fn.loc(n)))
+        if k == 'CallExpr' and cs == 'std::accumulate' and len(n.get('args', [])) in (3, 4):
+            vals = [self.eval(fn, S[a], env) for a in n['args']]
+            b, e, acc = vals[0], vals[1], vals[2]
+            if isinstance(b, tuple) and isinstance(e, tuple) and b[0] == 'it' and e[0] == 'it' and b[1] is e[1]:
+                import copy as _copy
+                acc = _copy.deepcopy(acc) if isinstance(acc, Obj) else acc
+                for i in range(b[2], e[2]):
+                    acc = self.call_lambda(vals[3], [acc, b[1][i]]) if len(vals) == 4 else acc + b[1][i]
+                return acc
+            raise OutOfFragment('std::accumulate form at %s' % fn.loc(n))
         if k == 'CallExpr' and cs == 'std::find' and len(n.get('args', [])) == 3:
             b, e, v = (self.eval(fn, S[a], env) for a in n['args'])
             if isinstance(b, tuple) and isinstance(e, tuple) and b[0] == 'it' and e[0] == 'it' and b[1] is e[1]:
@@ -469,7 +522,19 @@ class Interp:
                 return b''
             if isinstance(args[0], (bytes, bytearray)):
                 return bytes(args[0])
+            if isinstance(args[0], tuple) and len(args[0]) == 3 and args[0][0] == 'sptr' and len(args) >= 2 and isinstance(args[1], int):
+                b, off = args[0][1], args[0][2]
+                if not (0 <= off and off + args[1] <= len(b) and args[1] >= 0):
+                    raise OutOfFragment('string view [%d, %d) outside a buffer of %d bytes at %s' % (off, off + args[1], len(b), fn.loc(n)))
+                return bytes(b[off:off + args[1]])
             raise OutOfFragment('std::string constructor form at %s' % fn.loc(n))
+        if k == 'CXXOperatorCallExpr' and n.get('op') == '[]' and cs.startswith(('std::basic_string::', 'std::__cxx11::basic_string::', 'std::basic_string_view::')) and len(n.get('args', [])) == 2:
+            o = self.eval(fn, S[n['args'][0]], env)
+            i = self.eval(fn, S[n['args'][1]], env)
+            if isinstance(o, (bytes, bytearray)) and isinstance(i, int):
+                if 0 <= i < len(o):
+                    return o[i]
+                raise OutOfFragment('string index %r out of range (length %d) at %s' % (i, len(o), fn.loc(n)))
         if k == 'CXXOperatorCallExpr' and cs.startswith(('std::basic_string::', 'std::__cxx11::basic_string::', 'std::operator+')) and n.get('op') in ('+=', '+', '='):
             a = self.eval(fn, S[n['args'][0]], env)
             b = self.eval(fn, S[n['args'][1]], env)
@@ -827,6 +892,8 @@ def _wrap(v, t):
 
 
 def _binop(op, a, b, t):
+    if op in ('+', '-') and isinstance(a, tuple) and len(a) == 3 and a[0] == 'sptr' and isinstance(b, int):
+        return ('sptr', a[1], a[2] + (b if op == '+' else -b))
     try:
         if op == '==':
             return a == b
